@@ -1,3 +1,4 @@
+import Firebolt.TransExpected
 import Firebolt.Properties.TransBase
 import Firebolt.Model.Recovery
 import Firebolt.Generated.Source
@@ -261,17 +262,7 @@ open Firebolt.MiniGo Firebolt.TransBase
 theorem translated_recoverSingleEvent (σ : Env)
     (ho : 0 ≤ σ "e.TopicPartition.Offset" ∧ σ "e.TopicPartition.Offset" < 2^63)
     (ht : 0 ≤ σ "recoveryState.toOffset" ∧ σ "recoveryState.toOffset" < 2^63) :
-    let p := σ "e.TopicPartition.Partition"
-    let o := σ "e.TopicPartition.Offset"
-    let t := σ "recoveryState.toOffset"
-    obs Trans.recoverSingleEvent σ =
-      match rdec (σ "lookup rc.activePartitionMap#1" != 0) (σ "recoveryState.fromOffset") t o (σ "rc.updateRequestEvery") with
-      | .ignore => ⟨rsePre σ, some [], false⟩
-      | .complete => ⟨rsePre σ ++ [("rc.tracker.MarkRecoveryComplete", [p, t]), ("rc.RefreshAssignments", [])], some [], false⟩
-      | .emit u => ⟨rsePre σ ++ [rseWait σ,
-                      ("rc.metrics.RecoveryEvents.WithLabelValues(strconv.Itoa(int(e.TopicPartition.Partition))).Inc", []),
-                      rseSend σ] ++
-                    (if u then [("rc.tracker.UpdateRecoveryRequest", [p, o, t])] else []), none, false⟩ := by
+    obs Trans.recoverSingleEvent σ = TransExpected.recoverSingleEvent σ := by
   have hw : wrap64 (σ "recoveryState.toOffset" - σ "e.TopicPartition.Offset") = σ "recoveryState.toOffset" - σ "e.TopicPartition.Offset" := by
     apply wrap64_id <;> omega
   by_cases h1 : σ "lookup rc.activePartitionMap#1" = 0 <;>
@@ -279,7 +270,7 @@ theorem translated_recoverSingleEvent (σ : Env)
   by_cases h3 : σ "recoveryState.toOffset" - σ "e.TopicPartition.Offset" ≤ 0 <;>
   by_cases h4 : σ "e.TopicPartition.Offset" % σ "rc.updateRequestEvery" = 0 <;>
   by_cases h5 : σ "e.TopicPartition.Offset" < σ "recoveryState.toOffset" <;>
-  minigo_simp [Trans.recoverSingleEvent, rdec, rsePre, rseWait, rseSend, hw, h1, h2, h3, h4, h5, tmod_zero_iff] <;> (try omega)
+  minigo_simp [Trans.recoverSingleEvent, TransExpected.recoverSingleEvent, rdec, rsePre, rseWait, rseSend, hw, h1, h2, h3, h4, h5, tmod_zero_iff] <;> (try omega)
 
 /-- the hand-written model takes the same decision: it emits exactly in the `emit` case, and then only the record itself, flagged -/
 theorem model_recover_rdec (s : St) (p o : Int) :
